@@ -23,3 +23,5 @@ def run(ctx, res):
     lookup.rule_timer_order(ctx, res)
     lookup.rule_shutdown_stream(ctx, res)
     lookup.rule_round_nonempty(ctx, res)
+    # a search that knows no good node starts nothing and closes at once: the seeds are exactly the good contacts
+    lookup.rule_initial_pick(ctx, res)
